@@ -11,10 +11,14 @@ Record cfg := mkCfg {
   c_next_ctx : bool;         (* GetNext fails on a cancelled context (ent) *)
   c_find_by_created : bool;  (* Find orders by created_at (ent) instead of insertion order (inmemory) *)
   c_tie_free : bool;         (* GetNext may return any minimum of (time, priority, created_at) (ent) *)
-  c_norm_deadline : bool     (* TaskQueryParam.Normalize covers Deadline *)
+  c_norm_deadline : bool;    (* TaskQueryParam.Normalize covers Deadline *)
+  c_like_ci : bool           (* prefix/suffix/substring map matchers are ASCII-case-insensitive
+                                (ent on SQLite: LIKE) — known finding F4, contradicts the documented rule *)
 }.
-Definition cfg_inmem : cfg := mkCfg false false false false false false true.
-Definition cfg_ent : cfg := mkCfg true true true true true true true.
+Definition cfg_inmem : cfg := mkCfg false false false false false false true false.
+Definition cfg_ent : cfg := mkCfg true true true true true true true true.
+(* what ent should do according to the documented matching rules *)
+Definition cfg_ent_doc : cfg := mkCfg true true true true true true true false.
 
 (* a repository: the stored tasks in insertion order *)
 Definition repo := list task.
@@ -107,7 +111,7 @@ Fixpoint ins_created (t : task) (l : list task) : list task :=
 Definition sort_created (l : list task) : list task := fold_left (fun acc t => ins_created t acc) l [].
 
 Definition find (c : cfg) (s : repo) (q : query) (offset limit : Z) : list task :=
-  find_loop (norm_query (c_norm_deadline c) q)
+  find_loop_gen (q_match_gen (c_like_ci c) (norm_query (c_norm_deadline c) q))
             (if c_find_by_created c then sort_created s else s) offset limit.
 
 Definition guarded (t : task) (want : state) (ek : task -> option err) (s : repo) (upd : task) : repo * res :=
